@@ -168,6 +168,9 @@ type SrvWorld struct {
 	ctlQueue           [][]byte
 	offenceCut         bool // the connection was cut before the offence could be delivered
 	ExtraViol          []*Violation
+	PoolStats          []simrt.PoolStat
+	wuChecked          int
+	atQuiescence       func(w *SrvWorld) *Violation // evaluated after phase 0 and phase 1 each reached quiescence
 
 	// receive-side ledger of the peer (C06): SETTINGS_INITIAL_WINDOW_SIZE / MAX_FRAME_SIZE values the
 	// peer has sent, in order; ackedSettings of them have been acknowledged by the server
